@@ -52,7 +52,7 @@ def check_aes_window(ctx, case):
     kw = {'col_in': conv(col_in)}
     if col_out is not None:
         kw['col_out'] = conv(col_out)
-    out, hist = gen.pure_call(case, 'aes.key_expansion(%s%s)' % (kw, '' if ikind is None else ' as numpy.' + ikind), aes.key_expansion, [arg], kw)
+    out, hist = gen.pure_call(case, 'aes.key_expansion(%s%s)' % (kw, '' if ikind is None else ' as numpy.' + ikind), aes.key_expansion, [arg], kw, refill=True)
     arg = arg if hist in ('plain', 'held') else a0
     co = TOTAL[ks] if col_out is None else col_out
     if col_in < co:
@@ -72,7 +72,7 @@ def check_aes_schedule(ctx, case):
     keys, single = case['keys'], case['single']
     ks = keys.shape[1]
     arg = _as_arg(case, keys[0] if single else keys)
-    out, hist = gen.pure_call(case, 'aes.key_schedule', aes.key_schedule, [arg])
+    out, hist = gen.pure_call(case, 'aes.key_schedule', aes.key_schedule, [arg], refill=True)
     exp = np.array([AR.round_keys(bytes(k)) for k in (keys[:1] if single else keys)], dtype='uint8')
     if single:
         exp = exp[0]
@@ -92,7 +92,7 @@ def check_des_schedule(ctx, case):
     keys, single, r = case['keys'], case['single'], case['interrupt']
     arg = _as_arg(case, keys[0] if single else keys)
     kw = {} if r is None else {'interrupt_after_round': r}
-    out, hist = gen.pure_call(case, 'des.key_schedule(%s)' % kw, des.key_schedule, [arg], kw)
+    out, hist = gen.pure_call(case, 'des.key_schedule(%s)' % kw, des.key_schedule, [arg], kw, refill=True)
     rr = 15 if r is None else r
     exp = np.array([DR.schedule_words(bytes(k))[:rr + 1] for k in (keys[:1] if single else keys)], dtype='uint8')
     if single:
